@@ -723,6 +723,46 @@ func c05(r *core.Run) {
 			}
 		}
 		r.Check(get != nil, "M1", core.FuncName(h), "routes-before-processing", p.InstrPos(c), "the message handler routes the parsed resource name with GetHandler", "the message handler does not route the resource name")
+		if get != nil {
+			// ... on every path: no request reaches the processing step without its name having been
+			// looked up (a lookup skipped for names that fail some test answers notFound for resources
+			// a registered pattern matches)
+			var site ssa.Instruction = c
+			if c.Parent() != h {
+				inl := map[*ssa.Function]bool{}
+				for _, hh := range p.Helpers(h) {
+					inl[hh] = true
+				}
+				cl := c.Parent()
+				for cl.Parent() != nil && !inl[cl.Parent()] {
+					cl = cl.Parent()
+				}
+				site = nil
+				if ss := core.ClosureSites(cl); len(ss) == 1 {
+					site = ss[0]
+				}
+			}
+			if site == nil {
+				r.Unres("M1", core.FuncName(h)+".<processing-closure>", "cannot find where the processing closure is created")
+			} else {
+				inl := map[*ssa.Function]bool{}
+				for _, hh := range p.Helpers(h) {
+					inl[hh] = true
+				}
+				fl := &core.Flow{Fn: h, Entry: core.StateSet(0).Add(0), Inline: func(cal *ssa.Function) bool { return inl[cal] && cal != h }}
+				fl.Transfer = func(in ssa.Instruction, st int) core.StateSet {
+					if ci, ok := in.(ssa.CallInstruction); ok {
+						if cal := ci.Common().StaticCallee(); cal != nil && cal.Name() == "GetHandler" {
+							return core.StateSet(0).Add(1)
+						}
+					}
+					return core.StateSet(0).Add(st)
+				}
+				res := fl.Run()
+				bs := res.Before[site]
+				r.Check(!bs.Empty() && bs.Only(1), "M1", core.FuncName(h), "routes-on-every-path-to-processing", p.InstrPos(site), "every path to the processing step has looked the name up", "some path reaches the processing step without the resource name having been looked up: a request whose name fails the test that guards the lookup is answered notFound although a registered pattern matches it")
+			}
+		}
 	}
 	// JSON keys vs client package
 	if cl := p.NamedType("resprot", "Request"); cl != nil {
